@@ -587,3 +587,6 @@ def replay(doc):
 
 
 RULE += ' Also (wave 9): overwrites with an equal but different object that the caller goes on changing, Fraction / Decimal probes equal / unequal to stored keys.'
+RULE += (' Also (wave 11): quiet histories over 3-6 keys (case indices above BASE_CASES) observed after each step by iteration and '
+         'len() only - the per-step membership probes are searches and would overwrite state the history left for the next '
+         'search -, with the full probes once at the end.')
